@@ -9,6 +9,13 @@ COMMON_NOTE = ("Trusted: Coq 8.16.1 kernel and its VM (vm_compute; no native_com
                "(virtual clock, scheduler, canonicalisation, case printer). ")
 # id -> (text, note, technique, design_ref)
 CLAIMED = {
+ "C06": ("Theorems for every event sequence (any number of tasks, any interleaving of attempts, exits, foreign unlocks and clock advances, per-acquisition ttl): "
+         "two tasks inside at once implies one of them has overstayed its own ttl (3-part invariant by induction); unlock releases iff the live entry holds exactly the "
+         "presented token; leaving removes the entry carrying the task's token; an attempt succeeds whenever there is no live entry. Real cache.lock / @locked / "
+         "backend.lock tasks run under a deterministic scheduler (gates in front of set_lock / unlock / ping, virtual clock, one cancellation); the observed command "
+         "trace is replayed on the model and checked against an ideal-lock oracle.",
+         "asyncio scheduling/cancellation and the context manager's finally are the interpreter's (partial: theorem about the model + replayed traces); uuid4 tokens distinct.",
+         "Coq proof (invariant over all schedules) + trace replay from scheduled real tasks", "3/C06"),
  "C16": ("Theorems for ANY fault set over the Gallina image of the block-exit protocol (try/finally of __aexit__, Transaction.commit/rollback over all backends, "
          "LockTransactionBackend commit/rollback/_unlock_updates): the task always leaves the transaction; every lock a backend holds gets its own release command on "
          "the rollback path of any number of backends and on a backend's commit path, and a lock key survives only if a release command itself failed. "
